@@ -56,6 +56,7 @@ type Config struct {
 	ClockStartMs int64   `json:"clock_start_ms"`
 	ClockStepsMs []int64 `json:"clock_steps_ms,omitempty"` // applied after each read; default +1ms
 	ClockNs      int64   `json:"clock_ns,omitempty"`       // sub-millisecond part, 0..999999
+	ClockTickUs  int64   `json:"clock_tick_us,omitempty"`  // simulated microseconds that pass per executed step (0: time moves only with reads and sleeps)
 
 	// Orders[i] decides the i-th dynamic range over a Go map: 0 identity
 	// (canonically sorted keys), -1 reverse, d>0 the d-th permutation in
@@ -485,9 +486,13 @@ func Lstat(path string) (fs.FileInfo, error) { return Stat(path) }
 
 // ---------------------------------------------------------------- clock
 
+// simMs: the simulated wall clock in milliseconds (reading it here moves nothing)
+func simMs() int64 { return clockMs + int64(ticks)*cfg.ClockTickUs/1000 }
+
 func Now() time.Time {
-	t := time.UnixMilli(clockMs).Add(time.Duration(cfg.ClockNs)).UTC()
-	record("NOW", "", clockMs)
+	ms := simMs()
+	t := time.UnixMilli(ms).Add(time.Duration(cfg.ClockNs)).UTC()
+	record("NOW", "", ms)
 	step := int64(1)
 	if clockIdx < len(cfg.ClockStepsMs) {
 		step = cfg.ClockStepsMs[clockIdx]
@@ -527,7 +532,8 @@ func Tick() {
 
 // Builtin is inserted at the entry of the Call method of every Callable
 // implementation other than the user-function type.
-func Builtin(name string) { record("BUILTIN", name, 0) }
+// The event carries the simulated wall clock at the moment of the call.
+func Builtin(name string) { record("BUILTIN", name, simMs()) }
 
 // ---------------------------------------------------------------- map order
 
